@@ -372,6 +372,12 @@ pub fn check_log(h: &Hist, info: &SchedInfo) -> Result<(bool, Vec<&'static str>)
     if let Some(s) = &info.stalled {
         return Err(failure("stalled", format!("lost wake-up or deadlock: {s}; steps {:?}", info.steps), h, Some((log.len().saturating_sub(25), log.len()))));
     }
+    // an embedder that locks the shared app set / storage after taking an event and before polling again would wait for
+    // a lock that only its own next poll can release: a deadlock no waker resolves
+    if let Some(i) = log.iter().position(|o| matches!(o, Op::LockHeldAtEmission { .. })) {
+        let Op::LockHeldAtEmission { which } = &log[i] else { unreachable!() };
+        return Err(failure("shared-lock-held-across-emission", format!("the state machine is suspended in an emission (the observer has just taken an event) while it holds the lock of the shared {which}: a consumer that locks it before polling again deadlocks the flow"), h, Some((i.saturating_sub(8), (i + 3).min(log.len())))));
+    }
     let segs = crate::model::checks(log);
     for s in &segs {
         let around = Some((s.start.saturating_sub(2), (s.end + 2).min(log.len())));
@@ -444,7 +450,26 @@ pub fn check_log(h: &Hist, info: &SchedInfo) -> Result<(bool, Vec<&'static str>)
     Ok((nontrivial, classes))
 }
 
+/// the state machine over the full generated script space (all outcome classes, installs, reboot waits, restarts), polled
+/// eagerly: ordering and progress rules, and no shared lock held while suspended in an emission
+fn case_machine_eager(t: &mut Tape, ctx: &CaseCtx) -> CaseResult {
+    let p = crate::sim::gen::Profile { offer_w: 5, ..Default::default() };
+    let mut script = crate::sim::gen::gen_script(t, &p);
+    if t.flag() {
+        script.reboot_needed = vec![true; 3];
+        script.reboot_allowed = vec![(false, false), (false, false), (true, true)];
+    }
+    let lives = [LifePlan { oneshot: t.chance(1, 6), checks: 1 + t.choose(3), crash_at: None, wall_at_start: None }, LifePlan::new(false, 1, None)];
+    let h = run_history(script, &lives[..1 + t.choose(2)]);
+    let (nontrivial, mut classes) = check_log(&h, &SchedInfo::default())?;
+    classes.push("state_machine_eager");
+    Ok(CaseReport { key: hash_of(&format!("{:?}", h.script)), nontrivial, classes, sample: ctx.want_sample.then(|| json!({"events_taken": h.log.iter().filter(|o| matches!(o, Op::Took(_))).count()})), ambiguous: false })
+}
+
 fn case_machine(t: &mut Tape, ctx: &CaseCtx) -> CaseResult {
+    if t.chance(1, 3) {
+        return case_machine_eager(t, ctx);
+    }
     let p = SchedProfile { requests_w: 1, drop_machine: false, offer: (5, 6), min_wait: (1, 6), ..Default::default() };
     let (h, info) = run_scheduled(t, &p);
     let (nontrivial, mut classes) = check_log(&h, &info)?;
